@@ -166,6 +166,11 @@ Section Cookies.
       destruct (Z.ltb (le64_dec (firstn 8 tmp)) now); [injection H as <-; reflexivity|discriminate].
   Qed.
 
+  (* the verdict depends on the decoded cipher text only: all spellings of one cipher text are treated alike *)
+  Lemma load_decoded_only c now ivd r1 r2 : decode_str r1 = decode_str r2 ->
+    cookies_load c now ivd (67 :: r1) = cookies_load c now ivd (67 :: r2).
+  Proof. intros H. unfold Defs.cookies_load. rewrite H. reflexivity. Qed.
+
   (* ---------- load_authentic ---------- *)
   Lemma load_authentic c now ivd cookie d t : length ivd = 16%nat ->
     cookies_load c now ivd cookie = Accept d t ->
